@@ -16,6 +16,46 @@ CHECKS = {
         note="Trusted: the reference model in vlib/oracles/core.py (self-tested against the repository's own literals); "
              "normalisation read as str.isspace removal + str.upper.",
         design="7/C01"),
+    "C02": dict(
+        technique="generated BBANs x exhaustive enumeration of all 100 check-digit pairs against an own mod 97-10 reference",
+        text="For generated structure-conforming BBANs of every bundled country (incl. BBANs solved so that the congruent "
+             "aliases 00/01/99 exist) from_bban is compared with an independent mod 97-10 computation and all 100 pairs are "
+             "enumerated: exactly the canonical one may be accepted. Exhaustive in the pair dimension, sampled in BBANs.",
+        note="Trusted: own mod 97-10 in vlib/oracles/core.py; BBAN sample is random per VERIF_SEED.",
+        design="7/C02"),
+    "C03": dict(
+        technique="exhaustive enumeration of single same-kind substitutions and adjacent transpositions of generated valid IBANs",
+        text="Every same-kind replacement at every position >= 2 and every adjacent same-kind transposition of generated "
+             "valid IBANs of every country must be rejected; the reference model cross-checks that each mutant is indeed "
+             "invalid. Exhaustive per base, bases sampled.",
+        note="Trusted: reference model; mod 97 arithmetic guarantees every such mutant is invalid, the oracle re-checks it.",
+        design="7/C03"),
+    "C04": dict(
+        technique="generated-input search (exhaustive position x alphabet, all lengths, all 676 country codes, Hypothesis text) "
+                  "against an own ISO 9362 reference",
+        text="Differential against an own ISO 9362 matcher with an embedded ISO 3166-1 list, both compliance modes: every "
+             "position x every alphabet character of 8/11-character bases, every length 0..14, all 676 country codes, every "
+             "registry BIC, Hypothesis near-valid and arbitrary Unicode text.",
+        note="Trusted: embedded ISO 3166-1 list (249 codes) and the reference matcher in vlib/oracles/bic.py.",
+        design="7/C04"),
+    "C05": dict(
+        technique="generated multi-defect inputs (constructive defect injection, exhaustive single replacements, Hypothesis) "
+                  "against a reference defect classifier",
+        text="For IBAN and BIC texts (with/without national validation, strict mode) the harness checks totality (only the "
+             "library's exception family escapes, is_valid never raises), agreement of constructor/validate/is_valid, the "
+             "verdict against the reference, and that the raised class names a defect the reference finds present. Inputs "
+             "carry every subset of six defect kinds.",
+        note="Trusted: reference defect classifier (O-iban, O-bic, O-nat, O-de); order of checks left free.",
+        design="7/C05"),
+    "C06": dict(
+        technique="generated BBANs with reference-computed national digits (accept side) and random/swept digits (reject side) "
+                  "against independent national algorithms",
+        text="For each of the 22 listed countries the library's verdict with national validation is compared with an "
+             "independent three-valued implementation of the published algorithm on BBANs whose accept side is populated by "
+             "reference-solved check digits; national field swept exhaustively for selected bases; monotonicity and "
+             "no-effect on unlisted countries on valid and mutated texts; BBAN-level check returns True / raises.",
+        note="Trusted: O-nat in vlib/oracles/nat.py; Norway accounts starting 00 tolerated.",
+        design="7/C06"),
 }
 
 NOT_YET = "check not built yet in this round (planned in DESIGN.md section 7)"
